@@ -144,6 +144,17 @@ BREAK = [
     ("C15", "components-no-reset", "gaftools/gfa.py", "        self.set_visited(False)\n        return connected_comp", "        return connected_comp"),
     ("C15", "component-one-side", "gaftools/gfa.py", "            neighbors = self.nodes[start].neighbors()\n            for n in neighbors:", "            neighbors = self.nodes[start].start\n            for n in neighbors:"),
     ("C15", "dfs-skips-add", "gaftools/gfa.py", "                dfs_out.add(s)\n                ordered_dfs_out.append(s)\n            else:", "                dfs_out.add(s)\n            else:"),
+    # --- rules added after the third round of seeded changes
+    ("C08", "majority-counts-raw-path", "gaftools/cli/sort.py", 'if orient_list.count(">") < orient_list.count("<"):', 'if path.count(">") < path.count("<"):'),
+    ("C09", "inversion-counts-raw-path", "gaftools/cli/sort.py", 'if orient_list.count(">") != 0 and orient_list.count("<") != 0:', 'if path.count(">") != 0 and path.count("<") != 0:'),
+    ("C16", "columns-stripped", "gaftools/gaf.py", '            fields = line.decode("utf-8").rstrip().split("\\t")\n', '            fields = line.decode("utf-8").rstrip().split("\\t")\n        fields = [f.strip() for f in fields]\n'),
+    ("C16", "tags-dict-on-reader", "gaftools/gaf.py", "        tags = {}\n        for k in fields[12:]:", "        self.scratch = getattr(self, 'scratch', {})\n        tags = self.scratch\n        tags.clear()\n        for k in fields[12:]:"),
+    ("C17", "chunked-read", "gaftools/gaf.py", "        for line in self.file:\n            yield self.parse_gaf_line(line)", "        for line in self.file.read().splitlines():\n            yield self.parse_gaf_line(line)"),
+    ("C03", "index-split-whitespace", "gaftools/cli/index.py", '            val = mapping.rstrip().split("\\t")\n', "            val = mapping.split()\n"),
+    ("C04", "merge-in-place", "gaftools/conversion.py", "        node = StableNode(node1.contig_id, node1.start, node2.end)", "        node2.start = node1.start\n        node = node2"),
+    ("C05", "stale-node-list", "gaftools/cli/view.py", "        try:\n            node_list = node_dict[c]\n        except KeyError:\n", "        if c not in node_dict:\n"),
+    ("C06", "bubble-by-block-size", "gaftools/cli/order_gfa.py", "        if len(bc_inside_nodes) == 0:", "        if len(bc) == 2:"),
+    ("C14", "links-filtered-while-reading", "gaftools/gfa.py", '            elif line.startswith("L"):\n                edges.append(line)', '            elif line.startswith("L") and line.split("\\t")[1] in self and line.split("\\t")[3] in self:\n                edges.append(line)'),
 ]
 
 TWIN = [
